@@ -874,6 +874,8 @@ class Interp:
             return ('top', reg_ty(rv['ty']), 'unop', op)
         if r == 'discriminant':
             cur = self.resolve_place(w, frame, rv['place'])
+            if cur[1].root[0] != 'L':
+                self.rec(frame, site[1], 'event', site, ('disc_read', cur[1], self.partition(w), w.fork()))
             return ('disc', cur[1], rv['pty'].get('name'))
         if r == 'aggregate':
             ops = [self.eval_operand(w, frame, o) for o in rv['ops']]
@@ -918,6 +920,8 @@ class Interp:
             data['part'] = self.partition(w)
         if extra:
             data.update(extra)
+            if 'of' in extra:
+                data['W'] = w.fork()
         self.rec(frame, site[1], 'ob', site, data)
         if not ok:
             w.store = w.store.add(*cons)
